@@ -20,8 +20,9 @@ func init() {
 			"R1": "hand list construction: one PlayerSetting per hand-index entry, in order; only later mutation is the dealer label on entry 0",
 			"R2": "action translation: one hand index and one player index per method, both derived from the caller's own id",
 			"R3": "settlement mapping (as C01.R2)",
-			"R4": "hand-index-list writers and sources: full-circle seat-map scan under the dealt-in flag",
+			"R4": "hand-index-list writers and sources: full-circle seat-map scan under the dealt-in flag; leave remap: id → position in the NEW player list, hand index list rebuilt from it for every old entry in order, under status ∈ {opened, playing, settled} with the live status; no in-place filtering; entry 0 of the hand list: dealer seat when a dealt-in player holds it, else the nearest active seat counter-clockwise from the SB seat (held) or BB seat; seats skipped only when unset; list starts empty",
 			"R5": "translator definitions",
+			"R7": "the dealt-in flags deciding membership of the hand list are copied from the seat manager for every player, on the clone, after this hand's rotation (as C05.R1)",
 			"R6": "joins do not shift: append to the player list; seat map copied and patched only at new seats",
 		},
 		Assumptions: []string{"pokerface keeps entry i's cards, actions and result under index i"},
